@@ -318,7 +318,7 @@ Theorem C03_model_kick_is_rf_model :
     if m_linear M then
       rf_lin (ftan (m_angle M)) (ax_zerobin A0) (m_syncphase M - phase) (m_bl2phase M) (ax_delta A0) ampl x
     else
-      rf_sin (m_revolutionpart M) ampl (m_V_RF M) (m_V0 M) (ax_delta A1) (ax_scale A1 "ElectronVolt")
+      rf_sin (m_revolutionpart M) ampl (m_V_RF M) (m_V0 M) (ax_delta A1) (ax_scale A1 U_ElectronVolt)
              (fsin (ax_at A0 x * m_bl2phase M + phase)).
 Proof. exact (fun K ftan fsin A0 A1 M phase ampl x => eq_refl). Qed.
 Print Assumptions C03_model_kick_is_rf_model.
@@ -335,7 +335,7 @@ Theorem C03_rf_ctors_generated_are_model :
     (let st := gen_rfk_sin_ctor ftan fsin fasin nb nx ny A0 A1 c two_pi revolutionpart V_RF f_RF V0 in
      (forall i, rs_offset st i =
                 if in_range i (nx * nb) then
-                  rf_offsets nx (fun x => rf_sin revolutionpart 1 V_RF V0 (ax_delta A1) (ax_scale A1 "ElectronVolt")
+                  rf_offsets nx (fun x => rf_sin revolutionpart 1 V_RF V0 (ax_delta A1) (ax_scale A1 U_ElectronVolt)
                                              (fsin (ax_at A0 x * bl2phase_of K A0 c two_pi f_RF + fasin (V0 / V_RF)))) i
                 else 0) /\
      (forall i, rs_built st i = rs_offset st i)).
@@ -350,7 +350,7 @@ Theorem C03_drift_ctor_generated_is_model :
   forall (K : Fld) (ftan fsin fasin : K -> K) (nb nx ny : Z) (A0 A1 : axfacts K) (slip : list K) (E0 : K),
     let st := gen_drift_ctor ftan fsin fasin nb nx ny A0 A1 slip E0 in
     (forall i, rs_offset st i =
-               drift_offsets ny (fun y => drift_off slip (ax_scale A1 "ElectronVolt") E0 (ax_delta A0) (ax_at A1 y)) i) /\
+               drift_offsets ny (fun y => drift_off slip (ax_scale A1 U_ElectronVolt) E0 (ax_delta A0) (ax_at A1 y)) i) /\
     (forall i, rs_built st i = rs_offset st i).
 Proof. exact gen_drift_ctor_is_model. Qed.
 Print Assumptions C03_drift_ctor_generated_is_model.
@@ -393,7 +393,7 @@ Print Assumptions C03_drift_offsets_linear_generated.
 
 (** the axes built by the generated Ruler constructor are linear: at(i) = delta*(i - zerobin), delta <> 0 *)
 Theorem C03_generated_axis_is_linear :
-  forall (K : Fld) (steps : Z) (mn mx : K) (sc : string -> K),
+  forall (K : Fld) (steps : Z) (mn mx : K) (sc : runit -> K),
     mn <> mx -> fz (K:=K) (steps - 1) <> 0 ->
     axis_linear K (gen_axis steps mn mx sc) /\ ax_delta (gen_axis steps mn mx sc) <> 0 /\
     ax_zerobin (gen_axis steps mn mx sc) = ruler_zerobin steps mn mx /\
@@ -405,7 +405,7 @@ Theorem C03_drift_offsets_general_generated :
   forall (K : Fld) (ftan fsin fasin : K -> K) (nb nx ny : Z) (A0 A1 : axfacts K) (a a1 a2 E0 : K) (y : Z),
     (0 <= y < ny)%Z -> E0 <> 0 -> ax_delta A0 <> 0 ->
     let st := gen_drift_ctor ftan fsin fasin nb nx ny A0 A1 [a; a1; a2] E0 in
-    let p := ax_at A1 y in let r := p * ax_scale A1 "ElectronVolt" / E0 in
+    let p := ax_at A1 y in let r := p * ax_scale A1 U_ElectronVolt / E0 in
     rs_offset st y = (a * p + a1 * p * r + a2 * p * (r * r)) / ax_delta A0 /\ rs_built st y = rs_offset st y.
 Proof. exact drift_offsets_general_generated. Qed.
 Print Assumptions C03_drift_offsets_general_generated.
@@ -415,7 +415,7 @@ Print Assumptions C03_drift_offsets_general_generated.
     angle*(delta_1/delta_0)*(y - zerobin_1) *)
 Theorem C03_main_rf_field_generated :
   forall (K : Fld) (ftan fsin fasin : K -> K) (O : Ops K) (L : leaf -> K) (B : bleaf -> bool)
-         (nb n : Z) (mn0 mx0 mn1 mx1 : K) (sc0 sc1 : string -> K) (c two_pi : K) (b x : Z),
+         (nb n : Z) (mn0 mx0 mn1 mx1 : K) (sc0 sc1 : runit -> K) (c two_pi : K) (b x : Z),
     (0 <= b < nb)%Z -> (0 <= x < n)%Z ->
     let A0 := gen_axis n mn0 mx0 sc0 in let A1 := gen_axis n mn1 mx1 sc1 in
     let st := gen_rfk_lin_ctor ftan fsin fasin nb n n A0 A1 c two_pi (gen_angle K O L B) (gen_linrf_f_RF K O L B) in
@@ -426,7 +426,7 @@ Print Assumptions C03_main_rf_field_generated.
 
 Theorem C03_main_drift_field_generated :
   forall (K : Fld) (ftan fsin fasin : K -> K) (O : Ops K) (L : leaf -> K) (B : bleaf -> bool)
-         (nb n : Z) (mn0 mx0 mn1 mx1 : K) (sc0 sc1 : string -> K) (y : Z),
+         (nb n : Z) (mn0 mx0 mn1 mx1 : K) (sc0 sc1 : runit -> K) (y : Z),
     (0 <= y < n)%Z -> L O_getAlpha1 = 0 -> L O_getAlpha2 = 0 ->
     mn0 <> mx0 -> mn1 <> mx1 -> fz (K:=K) (n - 1) <> 0 -> gen_drift_E0 K O L B <> 0 ->
     let A0 := gen_axis n mn0 mx0 sc0 in let A1 := gen_axis n mn1 mx1 sc1 in
@@ -444,7 +444,7 @@ Print Assumptions C03_main_drift_field_generated.
     hypotheses on [eff_off] say that the float sum n/2 + offset is exact (C03_eff_off_exact) *)
 Theorem C03_centroid_step_generated :
   forall (ftan fsin fasin : Qc -> Qc) n nb it, valid_it it -> (2 <= it)%Z -> (1 < n < 2 ^ 30)%Z -> (0 < nb)%Z ->
-  forall (O : Ops QcF) (L : leaf -> Qc) (B : bleaf -> bool) (mn0 mx0 mn1 mx1 c two_pi : Qc) (sc0 sc1 : string -> Qc),
+  forall (O : Ops QcF) (L : leaf -> Qc) (B : bleaf -> bool) (mn0 mx0 mn1 mx1 c two_pi : Qc) (sc0 sc1 : runit -> Qc),
     mn0 <> mx0 -> mn1 <> mx1 -> L O_getAlpha1 = 0%Qc -> L O_getAlpha2 = 0%Qc -> gen_drift_E0 QcF O L B <> 0%Qc ->
     let A0 := gen_axis (K:=QcF) n mn0 mx0 sc0 in
     let A1 := gen_axis (K:=QcF) n mn1 mx1 sc1 in
